@@ -288,6 +288,9 @@ def oracle(case, res, hist):
         else:
             n = len(case["members"])
             bound = 2 * T * (n + 1 + case["depth"]) + 1.0
+            if case["topo"] == "popen" and not case["blocked_sender"]:
+                # local members are joined and killed in parallel: one timeout plus the kills, whatever their number
+                bound = 2 * T + 1.0
             dur = r[3] - r[2]
             if dur > bound + 1e-9:
                 V.append(v("terminate-late", ctxkey, f"terminate({T}) took {dur:.2f} simulated s, bound {bound:.2f} "
